@@ -10,7 +10,8 @@
    exact Gaussian-integer data for linear primitives; transcendental functions
    of a complex variable, FFT and complex linalg numerically). *)
 From Coq Require Import Ring.
-From AG Require Import Complex.
+From Coq Require Import List.
+From AG Require Import Complex ComplexRing VSpace VSpaceProof Bilinear.
 
 Theorem C09_holomorphic :
   forall (K : Type) (k0 k1 : K) (kadd kmul ksub : K -> K -> K) (kopp : K -> K),
@@ -43,3 +44,33 @@ Theorem C09_forward_reverse_adjoint :
       = rpair K kadd kmul (cconj K kopp (vjp_conv K kadd kmul kopp j11 j12 j21 j22 g)) v.
 Proof. exact complex_adjoint. Qed.
 Print Assumptions C09_forward_reverse_adjoint.
+
+(* K[i] is a commutative ring, so the ring-generic rule theorems hold for complex arrays as they stand; for a C-linear
+   map the ring-level rule g |-> g * m is what the convention prescribes (C09_holomorphic).  Instance: every bilinear
+   primitive with complex operands (dot / matmul / tensordot / inner / outer / kron / einsum / cross / multiply) - the two
+   reverse rules are the adjoints of the partial maps IN K[i], each in its argument's space. *)
+Theorem C09_complex_numbers_form_a_ring :
+  forall (K : Type) (k0 k1 : K) (kadd kmul ksub : K -> K -> K) (kopp : K -> K),
+    ring_theory k0 k1 kadd kmul ksub kopp eq ->
+    ring_theory (ComplexRing.c0 K k0) (ComplexRing.c1 K k0 k1) (ComplexRing.cadd K kadd) (Complex.cmul K kadd kmul ksub)
+                (ComplexRing.csub K ksub) (ComplexRing.copp K kopp) eq.
+Proof. exact ComplexRing.C_ring. Qed.
+Print Assumptions C09_complex_numbers_form_a_ring.
+
+Theorem C09_complex_bilinear_rules_are_adjoints :
+  forall (K : Type) (k0 k1 : K) (kadd kmul ksub : K -> K -> K) (kopp : K -> K),
+    ring_theory k0 k1 kadd kmul ksub kopp eq ->
+    let C := (K * K)%type in
+    let z := ComplexRing.c0 K k0 in let ad := ComplexRing.cadd K kadd in let ml := Complex.cmul K kadd kmul ksub in
+    forall na nb no (S : list (Bilinear.term C)) (A B g : list C),
+      List.Forall (Bilinear.in_bounds C na nb no) S -> length A = na -> length B = nb -> length g = no ->
+      VSpaceProof.dot C z ad ml g (Bilinear.bil C z ad ml no S A B) = VSpaceProof.dot C z ad ml (Bilinear.vjpA C z ad ml na S g B) A
+      /\ VSpaceProof.dot C z ad ml g (Bilinear.bil C z ad ml no S A B) = VSpaceProof.dot C z ad ml (Bilinear.vjpB C z ad ml nb S g A) B
+      /\ length (Bilinear.vjpA C z ad ml na S g B) = na /\ length (Bilinear.vjpB C z ad ml nb S g A) = nb
+      /\ length (Bilinear.bil C z ad ml no S A B) = no.
+Proof.
+  intros K k0 k1 kadd kmul ksub kopp R C z ad ml na nb no S A B g.
+  exact (Bilinear.bilinear_rules_adjoint C z (ComplexRing.c1 K k0 k1) ad ml (ComplexRing.csub K ksub) (ComplexRing.copp K kopp)
+           (ComplexRing.C_ring K k0 k1 kadd kmul ksub kopp R) na nb no S A B g).
+Qed.
+Print Assumptions C09_complex_bilinear_rules_are_adjoints.
